@@ -245,18 +245,22 @@ def execute(case: dict):
                 cls = classify_value(v)
                 if cls == "ok":
                     continue
-                src = parse(base)
-                before = src.rebuild()
-                stats["value_faults:" + cls] = stats.get("value_faults:" + cls, 0) + 1
-                facts = {"faults": "value:" + cls, "value": v}
-                try:
-                    res = session.apply_op(src, {"op": "set", "path": "a", "value": v})
-                    viols.append(Violation("C07.bad_value_accepted", "VALUE %r (%s) accepted: %r" % (v, cls, res[-80:]), None, facts))
-                    break
-                except Exception:  # noqa: BLE001
-                    pass
-                if src.rebuild() != before:
-                    viols.append(Violation("C07.bad_value_mutated", "refused VALUE %r changed the document" % v, None, facts))
+                # every way a `set` can address the document: existing / new / dotted key, existing or new let layer
+                for vpath in ["a"] + rng.sample(["zz9", "a.b", "@a", "@zz9", "@@a", '"q r"', "zz9.y.x"], 2):
+                    src = parse(base)
+                    before = src.rebuild()
+                    stats["value_faults:" + cls] = stats.get("value_faults:" + cls, 0) + 1
+                    facts = {"faults": "value:" + cls, "value": v, "value_path": vpath}
+                    try:
+                        res = session.apply_op(src, {"op": "set", "path": vpath, "value": v})
+                        viols.append(Violation("C07.bad_value_accepted", "set %s with VALUE %r (%s) accepted: %r" % (vpath, v, cls, res[-80:]), None, facts))
+                        break
+                    except Exception:  # noqa: BLE001
+                        pass
+                    if src.rebuild() != before:
+                        viols.append(Violation("C07.bad_value_mutated", "set %s: refused VALUE %r changed the document" % (vpath, v), None, facts))
+                        break
+                if viols:
                     break
     finally:
         shutil.rmtree(root, ignore_errors=True)
